@@ -5,14 +5,15 @@ import AmVerif.Model.ArchiveSkel
 * `Tree` — a finite directory tree, flat: files with their directory path, and the list of all
   (non-root) directories. `sem t` is the *specification* view: what `read`, `read_dir`, `exists`
   must answer for ids (dotted strings, `List Char`).
-* `index` — transcription of `Zip::create` / `Tar::create`: a fold of `register` over the member
-  list; `register` *interprets* the effect skeleton of `register_file` (`ArchiveSkel.Skel`), the
-  one extracted from the source by `amx` is proved equal to `registerSkel` in `Props/C04.lean`.
+* `index` — transcription of `Zip::create` / `Tar::create`: the root directory is registered, then
+  `register` is folded over the member list; `register` *interprets* the effect skeletons of
+  `register_file` and `register_dir` (`ArchiveSkel.Skel`, `ArchiveSkel.DirSkel`), the ones extracted
+  from the source by `amx` are proved equal to `registerSkel` / `registerDirSkel` in `Props/C04.lean`.
   `HashMap`s are modelled as partial functions (modelled, not verified); the `Vec` of a directory
   keeps its insertion order.
-* `fsView` — `FileSystem`: `path_of_entry`, `fs::read`, `fs::read_dir`, `Path::exists` over the
-  materialised tree (an OS model: a path names a file, a directory, or nothing; going through a
-  file is `ENOTDIR`).
+* `fsView` — `FileSystem`: `path_of_entry`, `fs::read`, `fs::read_dir`, `Path::is_file` / `is_dir`
+  over the materialised tree (an OS model: a path names a file, a directory, or nothing; going
+  through a file is `ENOTDIR`); which kind tests the code makes is extracted (`FsCfg`).
 * `embedTables` / `embeddedFrom` — the tables `embed!` produces and `Embedded::from`.
 * `dirLoad`, `recLoad`, `iter`, `iterCached` — `Directory<T>` / `RecursiveDirectory<T>`.
 -/
@@ -214,12 +215,66 @@ def walk (n p c : CompAct) : List Name → List Char → Option (List Char)
 
 def upd {κ β} [DecidableEq κ] (f : κ → β) (k : κ) (v : β) : κ → β := fun x => if x = k then v else f x
 
-/-- The `files` and `dirs` maps of `Zip` / `Tar` / `Embedded` (a `HashMap` is a partial function). -/
+/-- The `files` and `dirs` maps of `Zip` / `Tar` / `Embedded` as the views read them (a `HashMap`
+is a partial function, a `Vec` a list). -/
 structure Idx where
   files : Id × Name → Option Bytes
   dirs : Id → Option (List Entry)
 
 def Idx.empty : Idx := ⟨fun _ => none, fun _ => none⟩
+
+/-- The `dirs` map while an archive is being indexed: an association list, the most recent
+binding of a key first (`insert` = cons, `get` = first match). -/
+abbrev DirMap := List (Id × List Entry)
+
+def dget : DirMap → Id → Option (List Entry)
+  | [], _ => none
+  | (k, v) :: d, p => if p = k then some v else dget d p
+
+def dset (d : DirMap) (k : Id) (v : List Entry) : DirMap := (k, v) :: d
+
+/-- The maps while an archive is being indexed. -/
+structure AIdx where
+  files : Id × Name → Option Bytes
+  dirs : DirMap
+
+def AIdx.empty : AIdx := ⟨fun _ => none, []⟩
+def AIdx.toIdx (i : AIdx) : Idx := ⟨i.files, dget i.dirs⟩
+
+/-- `DirEntry::parent_id`: none for the root, else everything before the last `.` (the same
+computation as `IdBuilder::pop`). -/
+def parentId (id : Id) : Option Id := idPop id
+
+/-- `dirs.entry(p).or_default().push(e)` -/
+def pushInto (d : DirMap) (p : Id) (e : Entry) : DirMap := dset d p ((dget d p).getD [] ++ [e])
+
+/-- The statements of `register_dir(dirs, id)`; `par` is the bound `parent_id` (none outside the
+`if let`), `recur` the recursive call. The `Bool` is false after an early `return` (or when a
+token refers to `parent_id` out of scope — not producible by the extractor). -/
+def runDirToks (recur : DirMap → Id → DirMap) (id : Id) (par : Option Id) : List DirTok → DirMap → DirMap × Bool
+  | [], d => (d, true)
+  | .returnIfPresent :: ts, d => if (dget d id).isSome then (d, false) else runDirToks recur id par ts d
+  | .insertEmpty :: ts, d => runDirToks recur id par ts (dset d id [])
+  | .recurseParent :: ts, d =>
+    match par with
+    | some p => runDirToks recur id par ts (recur d p)
+    | none => (d, false)
+  | .pushDirIntoParent :: ts, d =>
+    match par with
+    | some p => runDirToks recur id par ts (pushInto d p (.dir id))
+    | none => (d, false)
+
+/-- `register_dir`, fuelled (every call is on a strictly shorter id). -/
+def registerDirF (dsk : DirSkel) : Nat → DirMap → Id → DirMap
+  | 0, d, _ => d
+  | n + 1, d, id =>
+    let r := runDirToks (registerDirF dsk n) id none dsk.pre d
+    if !r.2 then r.1 else
+    match parentId id with
+    | none => r.1
+    | some p => (runDirToks (registerDirF dsk n) id (some p) dsk.withParent r.1).1
+
+def registerDir (dsk : DirSkel) (d : DirMap) (id : Id) : DirMap := registerDirF dsk (id.length + 1) d id
 
 structure RegSt where
   buf : List Char
@@ -228,7 +283,7 @@ structure RegSt where
   ext : Name
   desc : Option (Id × Name)
   entry : Option Entry
-  idx : Idx
+  idx : AIdx
 
 /-- The final component, if it is a real name (`file_stem()?` / `extension_of`). -/
 def lastNameOf (cs : List Name) : Option Name :=
@@ -239,7 +294,7 @@ def lastNameOf (cs : List Name) : Option Name :=
 def lastName (m : Member) : Option Name := lastNameOf (normComps m.comps)
 
 /-- One token; `none` is the closure's early `return None` (`?`). -/
-def tokStep (m : Member) (st : RegSt) : Tok → Option RegSt
+def tokStep (dsk : DirSkel) (m : Member) (st : RegSt) : Tok → Option RegSt
   | .reset => some { st with buf := [] }
   | .walkParent n p c o =>
     if (normComps m.comps).isEmpty then none else
@@ -266,43 +321,56 @@ def tokStep (m : Member) (st : RegSt) : Tok → Option RegSt
     | none => none
     | some d => some { st with entry := some (.file d.1 d.2) }
   | .dirsInsertEmptyIfAbsent =>
-    some (if (st.idx.dirs st.id).isSome then st
-          else { st with idx := { st.idx with dirs := upd st.idx.dirs st.id (some []) } })
-  | .dirsInsertEmpty => some { st with idx := { st.idx with dirs := upd st.idx.dirs st.id (some []) } }
+    some (if (dget st.idx.dirs st.id).isSome then st
+          else { st with idx := { st.idx with dirs := dset st.idx.dirs st.id [] } })
+  | .dirsInsertEmpty => some { st with idx := { st.idx with dirs := dset st.idx.dirs st.id [] } }
   | .entryDirId => some { st with entry := some (.dir st.id) }
   | .dirsPushParentEntry =>
     match st.entry with
     | none => none
-    | some e =>
-      some { st with idx := { st.idx with
-        dirs := upd st.idx.dirs st.parentId (some ((st.idx.dirs st.parentId).getD [] ++ [e])) } }
+    | some e => some { st with idx := { st.idx with dirs := pushInto st.idx.dirs st.parentId e } }
+  | .registerDirParent => some { st with idx := { st.idx with dirs := registerDir dsk st.idx.dirs st.parentId } }
+  | .registerDirId => some { st with idx := { st.idx with dirs := registerDir dsk st.idx.dirs st.id } }
+  | .dirsPushParentFileDesc =>
+    match st.desc with
+    | none => none
+    | some d => some { st with idx := { st.idx with dirs := pushInto st.idx.dirs st.parentId (.file d.1 d.2) } }
 
-def runToks (m : Member) : List Tok → RegSt → RegSt × Bool
+def runToks (dsk : DirSkel) (m : Member) : List Tok → RegSt → RegSt × Bool
   | [], st => (st, true)
   | t :: ts, st =>
-    match tokStep m st t with
+    match tokStep dsk m st t with
     | none => (st, false)
-    | some st' => runToks m ts st'
+    | some st' => runToks dsk m ts st'
 
 /-- `register_file` for one member (effects made before an early return persist). -/
-def register (sk : Skel) (m : Member) (idx : Idx) : Idx :=
+def register (sk : Skel) (dsk : DirSkel) (m : Member) (idx : AIdx) : AIdx :=
   let st0 : RegSt := { buf := [], parentId := [], id := [], ext := [], desc := none, entry := none, idx }
-  let r1 := runToks m sk.pre st0
+  let r1 := runToks dsk m sk.pre st0
   if !r1.2 then r1.1.idx else
-  let r2 := runToks m (if m.isFile then sk.fileBranch else sk.dirBranch) r1.1
+  let r2 := runToks dsk m (if m.isFile then sk.fileBranch else sk.dirBranch) r1.1
   if !r2.2 then r2.1.idx else
-  (runToks m sk.post r2.1).1.idx
+  (runToks dsk m sk.post r2.1).1.idx
 
-/-- The skeleton the theorems are about (equal to the extracted ones, `Props/C04.lean`). -/
+/-- The skeletons the theorems are about (equal to the extracted ones, `Props/C04.lean`). -/
 def registerSkel : Skel where
   pre := [.reset, .walkParent .push .pop .skip .fail, .joinParent, .pushStem, .joinId]
-  fileBranch := [.extOf, .descIdExt, .filesInsertDesc, .entryFileDesc]
-  dirBranch := [.dirsInsertEmptyIfAbsent, .entryDirId]
-  post := [.dirsPushParentEntry]
+  fileBranch := [.extOf, .descIdExt, .filesInsertDesc, .registerDirParent, .dirsPushParentFileDesc]
+  dirBranch := [.registerDirId]
+  post := []
+
+def registerDirSkel : DirSkel where
+  pre := [.returnIfPresent, .insertEmpty]
+  withParent := [.recurseParent, .pushDirIntoParent]
+
+/-- The maps before the first member: `create` registers the root directory (`rootFirst`, extracted). -/
+def AIdx.init (dsk : DirSkel) (rootFirst : Bool) : AIdx :=
+  if rootFirst then { AIdx.empty with dirs := registerDir dsk [] [] } else AIdx.empty
 
 /-- `Zip::create` / `Tar::create`: members are registered in archive order. -/
-def indexWith (sk : Skel) (ms : List Member) : Idx := ms.foldl (fun i m => register sk m i) Idx.empty
-def index (ms : List Member) : Idx := indexWith registerSkel ms
+def indexWith (sk : Skel) (dsk : DirSkel) (rootFirst : Bool) (ms : List Member) : Idx :=
+  (ms.foldl (fun i m => register sk dsk m i) (AIdx.init dsk rootFirst)).toIdx
+def index (ms : List Member) : Idx := indexWith registerSkel registerDirSkel true ms
 
 /-- `read` / `read_dir` / `exists` of `Zip`, `Tar` and `Embedded` over their maps. -/
 def viewOfIdx (i : Idx) : View where
@@ -334,37 +402,38 @@ def parseCore (cs : List Name) (isFile : Bool) (bytes : Bytes) : Option Reg :=
 def parseMember (m : Member) : Option Reg :=
   if m.abs then none else parseCore (normComps m.comps) m.isFile m.bytes
 
-def applyReg (r : Reg) (i : Idx) : Idx :=
-  let files := match r.file with
-    | some (e, b) => upd i.files (r.id, e) (some b)
-    | none => i.files
-  let dirs1 := match r.file with
-    | some _ => i.dirs
-    | none => if (i.dirs r.id).isSome then i.dirs else upd i.dirs r.id (some [])
-  { files, dirs := upd dirs1 r.parent (some ((dirs1 r.parent).getD [] ++ [r.entry])) }
+/-- `register_dir` with the skeleton of the theorems. -/
+def regDir (d : DirMap) (id : Id) : DirMap := registerDir registerDirSkel d id
+
+def applyReg (r : Reg) (i : AIdx) : AIdx :=
+  match r.file with
+  | some (e, b) =>
+    { files := upd i.files (r.id, e) (some b), dirs := pushInto (regDir i.dirs r.parent) r.parent (.file r.id e) }
+  | none => { i with dirs := regDir i.dirs r.id }
+
+/-- The maps of an archive before its first member. -/
+def idx0 : AIdx := AIdx.init registerDirSkel true
 
 /-- Most recent registration first. -/
-def indexR : List Reg → Idx
-  | [] => Idx.empty
+def indexR : List Reg → AIdx
+  | [] => idx0
   | r :: rs => applyReg r (indexR rs)
 
 /-- The optional `./` prefix stripped. -/
 def Member.norm (m : Member) : List Name := normComps m.comps
 
 /-- `ms` is an archive of `t`: every file exactly once with its bytes, every directory at most
-once (possibly never), nothing else, any order, each path optionally prefixed by `./`. -/
+once (possibly never), nothing else, any order, each path optionally prefixed by `./` — and the
+archive does contain the tree: a directory without a member of its own is on the path of a
+member (a file in it or below it, or the member of a directory below it). -/
 def Archives (t : Tree) (ms : List Member) : Prop :=
   (∀ m ∈ ms, m.abs = false) ∧
   ((ms.filter (·.isFile)).map fun m => (m.norm, m.bytes)).Perm (t.files.map fun f => (filePath f, f.bytes)) ∧
   ((ms.filter (!·.isFile)).map Member.norm).Nodup ∧
-  (∀ m ∈ ms, m.isFile = false → m.norm ∈ t.dirs)
-
-/-- Every directory of the tree has its own member. -/
-def DirsHaveMembers (t : Tree) (ms : List Member) : Prop :=
-  ∀ q ∈ t.dirs, ∃ m ∈ ms, m.isFile = false ∧ m.norm = q
+  (∀ m ∈ ms, m.isFile = false → m.norm ∈ t.dirs) ∧
+  (∀ q ∈ t.dirs, (∃ f ∈ t.files, q.isPrefixOf f.dir = true) ∨ (∃ m ∈ ms, m.isFile = false ∧ q.isPrefixOf m.norm = true))
 
 instance (t : Tree) (ms : List Member) : Decidable (Archives t ms) := by unfold Archives; infer_instance
-instance (t : Tree) (ms : List Member) : Decidable (DirsHaveMembers t ms) := by unfold DirsHaveMembers; infer_instance
 
 /-! ## FileSystem -/
 
@@ -423,39 +492,55 @@ def lookupErr : Lookup → Err
   | .notDir => .notDir
   | _ => .notFound
 
-def fsView (t : Tree) : View where
+/-- Which kind tests `FileSystem` makes (extracted from src/source/filesystem.rs by `amx`):
+`exists` answers `is_file()` / `is_dir()` according to the kind of the entry (else `Path::exists`);
+`read` / `read_dir` report `NotFound` when the path is not a file / not a directory (else the
+error of the OS: `EISDIR`, `ENOTDIR`). -/
+structure FsCfg where
+  existsKind : Bool
+  readNonFileNotFound : Bool
+  readDirNonDirNotFound : Bool
+  deriving DecidableEq, Repr
+
+def fsViewWith (c : FsCfg) (t : Tree) : View where
   read id ext :=
     match pathOfEntry id (some ext) with
     | none => .err .notFound
     | some p =>
       match fsResolve t p with
       | .found (.file b) => .ok b
-      | .found .dir => .err .isDir
-      | l => .err (lookupErr l)
+      | .found .dir => .err (if c.readNonFileNotFound then .notFound else .isDir)
+      | l => .err (if c.readNonFileNotFound then .notFound else lookupErr l)
   readDir id :=
     match pathOfEntry id none with
     | none => .err .notFound
     | some p =>
       match fsResolve t p with
       | .found .dir => .ok (fsChildren t p id)
-      | .found (.file _) => .err .notDir
-      | l => .err (lookupErr l)
+      | .found (.file _) => .err (if c.readDirNonDirNotFound then .notFound else .notDir)
+      | l => .err (if c.readDirNonDirNotFound then .notFound else lookupErr l)
   exist e :=
     match e with
     | .file id ext =>
       match pathOfEntry id (some ext) with
       | none => false
       | some p => match fsResolve t p with
-        | .found _ => true
+        | .found (.file _) => true
+        | .found .dir => !c.existsKind
         | _ => false
     | .dir id =>
       match pathOfEntry id none with
       | none => false
       | some p => match fsResolve t p with
         | .found .dir => true
-        -- a (malformed) id ending in `.` gives a path ending in `/`, which only names directories
-        | .found (.file _) => !((splitDot id).getLast? == some [] && !p.isEmpty)
+        -- `Path::exists`: a (malformed) id ending in `.` gives a path ending in `/`, which only names directories
+        | .found (.file _) => !c.existsKind && !((splitDot id).getLast? == some [] && !p.isEmpty)
         | _ => false
+
+/-- The kind tests the theorems are about (equal to the extracted ones, `Props/C04.lean`). -/
+def fsCfg : FsCfg := ⟨true, true, true⟩
+
+def fsView (t : Tree) : View := fsViewWith fsCfg t
 
 /-! ## Embedded -/
 
